@@ -162,3 +162,10 @@ pub fn panic_location(p: &str) -> String {
     }
     loc.to_string()
 }
+
+/// Logical-clock budget for one parse: generous multiple of what a legitimate parse needs
+/// (tree events for LL, semantic action calls for LR).
+pub fn budget_for(c: &Case, ntokens: usize) -> u64 {
+    let np = c.built.tables.ll_productions.len().max(c.built.tables.lr_productions.len()) as u64;
+    60 * (ntokens as u64 + 10) * (np + 1)
+}
